@@ -230,6 +230,8 @@ type modset struct {
 	// the forest); the inline form it is compared with gets the expanded equivalent in the same place.
 	inlineExtra string
 	extraAfter  bool
+	// featuresOff: loaded with these features off (nil: every feature on)
+	featuresOff []string
 }
 
 const c01Hdr = `module nf { yang-version 1.1; namespace "urn:nf"; prefix nf; `
@@ -572,7 +574,11 @@ func applyRef(nf []*snode, name string, p npath) (ms modset, ok bool) {
 }
 
 func c01Dump(ms modset) (model.Dump, error, string, string) {
-	m, err, fr, msg := c11Load(ms.main, nil, ms.mods)
+	var fs meta.FeatureSet
+	if ms.featuresOff != nil {
+		fs = meta.FeaturesOff(ms.featuresOff)
+	}
+	m, err, fr, msg := c11Load(ms.main, fs, ms.mods)
 	if fr != "" || err != nil {
 		return nil, err, fr, msg
 	}
@@ -816,6 +822,19 @@ func c01Scenarios(res *eng.Result, ss *sigSet) {
 		{"uses-augment-with-action-and-notification",
 			m(`container a { container c { leaf l { type string; } action act { input { leaf i { type string; } } } notification nn { leaf e { type string; } } } }`),
 			m(`grouping g { container c { leaf l { type string; } } } container a { uses g { augment c { action act { input { leaf i { type string; } } } notification nn { leaf e { type string; } } } } }`)},
+		// with a feature off: what the feature guards is gone, everything next to it is as written inline
+		{"feature-off/first-child-of-uses-augment",
+			modset{main: h + `feature foff; container a { container c { leaf s1 { type string; } leaf after { type string; } action act { input { leaf i { type string; } } } notification nn { leaf e { type string; } } } } }`, featuresOff: []string{"foff"}},
+			modset{main: h + `feature foff; grouping g { container c { leaf s1 { type string; } } } container a { uses g { augment c { leaf gone { if-feature foff; type string; } leaf after { type string; } action act { input { leaf i { type string; } } } notification nn { leaf e { type string; } } } } } }`, featuresOff: []string{"foff"}}},
+		{"feature-off/first-child-of-augment",
+			modset{main: h + `feature foff; container a { leaf s1 { type string; } leaf after { type string; } action act { input { leaf i { type string; } } } }`+"}", featuresOff: []string{"foff"}},
+			modset{main: h + `feature foff; container a { leaf s1 { type string; } } augment "/a" { leaf gone { if-feature foff; type string; } leaf after { type string; } action act { input { leaf i { type string; } } } } }`, featuresOff: []string{"foff"}}},
+		{"feature-off/first-node-of-grouping",
+			modset{main: h + `feature foff; container a { leaf after { type string; } container c { leaf l { type string; } } } }`, featuresOff: []string{"foff"}},
+			modset{main: h + `feature foff; grouping g { leaf gone { if-feature foff; type string; } leaf after { type string; } container c { leaf gone2 { if-feature foff; type string; } leaf l { type string; } } } container a { uses g; } }`, featuresOff: []string{"foff"}}},
+		{"feature-off/case-among-cases",
+			modset{main: h + `feature foff; choice ch { case k1 { leaf a { type string; } } case k3 { leaf c { type string; } } } }`, featuresOff: []string{"foff"}},
+			modset{main: h + `feature foff; choice ch { case k1 { leaf a { type string; } } case k2 { if-feature foff; leaf b { type string; } } case k3 { leaf c { type string; } } } }`, featuresOff: []string{"foff"}}},
 		{"recursive-grouping-terminates-like-inline-depth",
 			m(`container a { leaf l { type string; } }`),
 			m(`grouping g { leaf l { type string; } } container a { uses g; }`)},
